@@ -102,7 +102,7 @@ theorem threads_serialisable (uidOf : String → Option String) (k : Kind) (m₀
         have hni : i ∉ order := fun hm => hd ((w.done_iff i t hi).mpr hm)
         have hstart : t.pc = .start := w.notStarted i t hi hni
         have hstep : stepThread uidOf k .threads i sh t =
-            ({ sh with members := (atomic uidOf sh.members t.op).1,
+            ({ sh with members := (atomic uidOf sh.members t.op).1, wt := (atomic uidOf sh.members t.op).1,
                        log := if (atomic uidOf sh.members t.op).2 = .ok then sh.log ++ [(i, t.op)] else sh.log },
              { t with pc := .done (atomic uidOf sh.members t.op).2 }) := by
           simp [stepThread, hstart]
@@ -165,8 +165,8 @@ def ev (u : String) : String → Option String := fun t => if t = "dup1" ∨ t =
     completely, A writes -/
 theorem processes_two_conditional_updates_both_succeed :
     let ops := [Op.put "a.ics" "A" none (some "e0"), Op.put "a.ics" "B" none (some "e0")]
-    let out := runSched (fun _ => none) .tree .processes { members := [("a.ics", "e0")] } (ops.map fun op => { op := op })
-      [0, 1, 1, 1, 0, 0]
+    let out := runSched (fun _ => none) .tree .processes { members := [("a.ics", "e0")], wt := [("a.ics", "e0")] }
+      (ops.map fun op => { op := op }) [0, 1, 1, 1, 1, 0, 0, 0]
     results out.2 = [some .ok, some .ok] ∧
       serialisable (fun _ => none) [("a.ics", "e0")] ops out.1.members [.ok, .ok] = false := by
   decide
@@ -184,7 +184,8 @@ theorem processes_bare_lost_update :
 /-- two members end up with the same UID (either store) -/
 theorem processes_duplicate_uid :
     let ops := [Op.put "b.ics" "dup1" (some "U") none, Op.put "c.ics" "dup2" (some "U") none]
-    let out := runSched (ev "U") .tree .processes { members := [] } (ops.map fun op => { op := op }) [0, 1, 1, 1, 0, 0]
+    let out := runSched (ev "U") .tree .processes { members := [] } (ops.map fun op => { op := op })
+      [0, 1, 1, 1, 1, 0, 0, 0]
     results out.2 = [some .ok, some .ok] ∧
       out.1.members = [("c.ics", "dup2"), ("b.ics", "dup1")] ∧
       serialisable (ev "U") [] ops out.1.members [.ok, .ok] = false := by
